@@ -355,16 +355,18 @@ PROPS = {
                 "message's bytes only; non-trivial (bubble) = some Write had to wait behind another transaction AND a transaction > 32 KiB was "
                 "delivered; (live) = a client received > 64 KiB in the round; TestC14Sizes: exhaustive sweep, one server-originated transaction of every "
                 "total wire length from 56 to ~9 050 bytes (quick) / ~65 050 bytes (thorough), each must arrive whole with nothing left over "
-                "(non-trivial = longer than 512 bytes); distinct = hash(plan) | wire length; the request mix includes requests about another connected user (get-client-info, invite-to-new-chat), whose reply belongs to the requester; the mix also holds account edits that can collide (several administrators creating / deleting the same login, a stale rename onto a taken login); TestC14Stalled: 1..n-2 of 3-7 clients stop reading while 2-6 broadcasts (10 / 5000 / 40000 bytes) are queued for each of them; the other clients' requests are answered exactly once and they receive every broadcast while the stalled ones stay stalled",
+                "(non-trivial = longer than 512 bytes); distinct = hash(plan) | wire length; the request mix includes requests about another connected user (get-client-info, invite-to-new-chat), whose reply belongs to the requester; the mix also holds account edits that can collide (several administrators creating / deleting the same login, a stale rename onto a taken login); TestC14Stalled: 1..n-2 of 3-7 clients stop reading while 2-6 broadcasts (10 / 5000 / 40000 bytes) are queued for each of them; the other clients' requests are answered exactly once and they receive every broadcast while the stalled ones stay stalled; TestC14InfoTransfers: 2-3 rounds in which one user sends 40 or 120 download requests in one segment while 1-3 others send as many client-info requests about that user: every request of each is answered exactly once in whole transactions (a handler that waits for a lock forever is reported by the wedge watchdog)",
         "assumptions": ["goroutine schedules are sampled, not enumerated; the fair writer removes luck for the multi-Write class only",
                         "live engine inputs are a pure function of VERIF_SEED, the schedule is not reproducible (the failing round is printed)"],
         "quick": {"runs": [{"test": "^TestC14$", "shards": 10, "checks": 25, "timeout": 900},
                            {"test": "^TestC14Sizes$", "shards": 2, "timeout": 600},
                            {"test": "^TestC14Stalled$", "shards": 1, "checks": 40, "timeout": 600},
+                           {"test": "^TestC14InfoTransfers$", "shards": 2, "checks": 10, "timeout": 900},
                            {"test": "^TestC14Live$", "shards": 2, "timeout": 600, "weight": 2}]},
         "thorough": {"runs": [{"test": "^TestC14$", "shards": 12, "checks": 1200, "timeout": 3400, "group": 0},
                               {"test": "^TestC14Sizes$", "shards": 4, "timeout": 1800, "group": 0},
                               {"test": "^TestC14Stalled$", "shards": 2, "checks": 1500, "timeout": 1800, "group": 0},
+                              {"test": "^TestC14InfoTransfers$", "shards": 2, "checks": 600, "timeout": 3000, "group": 0},
                               {"test": "^TestC14Live$", "shards": 1, "timeout": 900, "group": 1, "weight": 16},
                               {"test": "^TestC14Live$", "shards": 1, "timeout": 900, "group": 2, "weight": 16, "race": True, "env": {"VERIF_LIVE_BUDGET": "120"}}]},
     },
